@@ -257,7 +257,23 @@ class MempoolEngine:
             avail = w.mempool_utxos()
             outs = [o for o in outs if o in avail]
             if outs:
-                w.mempool_add(parent='confirmed', n_in=1, prefer=outs)
+                # ... paying a script its parent does not touch: when a reorg later un-confirms the parent, only the child's
+                # has-unconfirmed-inputs flag changes for that script
+                from exv.chainsim import Tx, MINUS1
+                o = rng.choice(sorted(outs))
+                parent = w.txs[o[0]]
+                ptouch = {sc for _v, sc in parent.outs} | {w.txs[ph].outs[pi][1] for ph, pi in parent.prevouts() if ph in w.txs}
+                cands = [sc for sc in w.scripts[:8] if sc not in ptouch and not unspendable(sc, 10 ** 9, w.activation) and sc[:1] != b'\x6a']
+                if cands:
+                    w.salt += 1
+                    val = avail[o][1]
+                    t = Tx([(o[0], o[1], b'', MINUS1)], [(max(0, val - rng.randrange(0, 50)), rng.choice(cands))], locktime=w.salt)
+                    w.mempool[t.hash] = t
+                    w.txs[t.hash] = t
+                    w.bump()
+                    self.bump('children_paying_a_script_their_parent_does_not_touch')
+                else:
+                    w.mempool_add(parent='confirmed', n_in=1, prefer=outs)
         elif kind == 'reorg_noremine':
             # the tip block is replaced and its transactions are not mined again: they return to the mempool
             tip = w.fork(1, 2, rng=rng, remine=0.0, ntx=0)
